@@ -46,7 +46,7 @@ def shards(tier, seed):
             items.append({"what": "tiny", "len": 5, "part": p, "parts": 48})
     for i in range(2 if tier == "quick" else 8):
         items.append({"what": "machine", "n": 60 if tier == "quick" else 800, "seed": seed * 1000 + 900 + i})
-    return items
+    return items + [{"what": "partial"}]
 
 
 def run_shard(item, stats):
@@ -56,6 +56,8 @@ def run_shard(item, stats):
     km = core.known_matcher(ID, globals().get("known_match"))
     if item["what"] == "history":
         core.hyp_search(cachehist.history_case(max_ops=item["ops"]), check, stats, item["n"], item["seed"], km)
+    elif item["what"] == "partial":
+        core.run_cases(cachehist.partial_fill_cases(), check, stats, km)
     else:
         geos = [cachehist.TINY_GEOMETRIES[g] for g in item.get("geos", range(8))]
         core.run_cases(cachehist.tiny_cases(item["len"], item["part"], item["parts"], True, geos), check, stats, km, distinct=True)
